@@ -1,50 +1,8 @@
-(* C09 - a removed object never becomes readable again without a new upload.
-   Histories over the step machine of Crash/Model.v in which an operation may be
-   cut by a process death after k of its atomic steps (followed by a restart), with
-   restarts and metabase resyncs from the blob storage in any enumeration order.
-   Model definitions first (executable), proofs below. *)
+(* C09 - proofs and refutation witnesses over the histories of Crash/RModel.v. *)
 From Coq Require Import List Arith Bool Lia.
 Import ListNotations.
 From NV Require Import Crash.Model Crash.Proofs Crash.Inter.
-
-Inductive hop :=
-  | HOp (o : op)               (* the operation runs to completion *)
-  | HCut (o : op) (k : nat).   (* the process dies after k atomic steps of the operation; restart *)
-
-(* run a continuation for at most n atomic steps *)
-Fixpoint run_cont (c : cfg) (n : nat) (s : state) (k : list step) : state * list step :=
-  match n, k with
-  | S m, x :: r => run_cont c m (fst (fst (exec c s x))) (snd (fst (exec c s x)) ++ r)
-  | _, _ => (s, k)
-  end.
-
-Definition restart (s : state) : state :=
-  {| ent := ent s; mk := mk s; blob := blob s; wc := wc s; ep := ep s; gep := 0; pe := 0 |}.
-
-(* no operation of this model needs more steps than this in the universes used *)
-Definition OPFUEL := 400.
-Global Opaque OPFUEL.
-
-Definition happly (c : cfg) (s : state) (h : hop) : state :=
-  match h with
-  | HOp o => fst (run_cont c OPFUEL s (init_op c o))
-  | HCut o k => restart (fst (run_cont c k s (init_op c o)))
-  end.
-
-Definition hrun (c : cfg) (hs : list hop) : state := fold_left (happly c) hs init_state.
-
-(* Shard.Get returns the object *)
-Definition readable c s a : bool := get_obs c s (ep s) a =? 0.
-(* the shard reports the object as removed: tombstoned (2) or dropped with a garbage mark (4) *)
-Definition reported_removed c s a : bool :=
-  (exists_obs c s (ep s) a =? 2) || (exists_obs c s (ep s) a =? 4).
-(* nothing of the object is left: no metabase entry, no blob, no cache file *)
-Definition gone s a : bool := negb (ent s a) && negb (blob s a) && negb (wc s a).
-
-Definition op_of (h : hop) : op := match h with HOp o => o | HCut o _ => o end.
-Definition is_put_of (a : nat) (h : hop) : bool :=
-  match op_of h with OPut b _ => b =? a | _ => false end.
-Definition no_put (a : nat) (hs : list hop) : bool := forallb (fun h => negb (is_put_of a h)) hs.
+From NV Require Export Crash.RModel.
 
 (* ------------------------------------------------------------------------------------------ *)
 (* What holds: once nothing of an object is left on the node, only a new put of
@@ -228,15 +186,21 @@ Lemma resync_real_epoch_keeps_removed :
   readable w2_cfg (hrun w2_cfg (w2_before ++ [HOp (OResync [1; 0; 2] false)])) 0 = false.
 Proof. vm_compute. reflexivity. Qed.
 
-(* 3. a LOCK stored for a tombstoned object that has also expired makes the
-      metabase report it as available again (no resync, no crash) *)
+(* 3. a LOCK stored for a dropped object (forced garbage mark) overrides the mark:
+      the metabase reports the object as available again (no resync, no crash) *)
 Definition w3_cfg : cfg :=
-  {| objs := [{| okind := KReg; otgt := 0; oexp := 1 |}; {| okind := KTomb; otgt := 0; oexp := 0 |};
-              {| okind := KLock; otgt := 0; oexp := 0 |}]; wcen := false |}.
-Definition w3_before := [HOp (OPut 0 false); HOp (OPut 1 false)].
-Definition w3_after := [HOp (OEpoch 2); HOp (OPut 2 false)].
-Theorem lock_on_expired_tombstoned_refuted : resurrected w3_cfg w3_before w3_after 0.
+  {| objs := [{| okind := KReg; otgt := 0; oexp := 0 |}; {| okind := KLock; otgt := 0; oexp := 0 |}]; wcen := false |}.
+Definition w3_before := [HOp (OPut 0 false); HOp (OMark 0 1)].
+Definition w3_after := [HOp (OPut 1 false)].
+Theorem lock_on_dropped_refuted : resurrected w3_cfg w3_before w3_after 0.
 Proof. vm_compute. auto. Qed.
+(* a tombstoned object, expired or not, is no longer revived that way
+   (metabase fix 497eb4c: the lock is refused) *)
+Lemma lock_on_tombstoned_refused :
+  let c := {| objs := [{| okind := KReg; otgt := 0; oexp := 1 |}; {| okind := KTomb; otgt := 0; oexp := 0 |};
+                       {| okind := KLock; otgt := 0; oexp := 0 |}]; wcen := false |} in
+  readable c (hrun c [HOp (OPut 0 false); HOp (OPut 1 false); HOp (OEpoch 2); HOp (OPut 2 false)]) 0 = false.
+Proof. vm_compute. reflexivity. Qed.
 
 (* 4. flush-versus-delete schedule (interleaving machine of Crash/Inter.v): the flusher
       reads the object from the cache, a complete delete runs, the flusher writes the
